@@ -125,14 +125,39 @@ Section CSparse.
     let '(s, it, ok) := bicg_loop fuel L normb (mkB V0 Z R0 (cdot Z R0)) 0 in
     (bV s, it, if ok then 1 else 2).
 
+  (* true relative residual |b - A V| / |b| as PBCGSolveMod recomputes it after PBCGSolve returned *)
+  Definition true_er (L : clin) (V : cvec) : F :=
+    adiv A (cnrm (map (fun '(b, r) => csub A b r) (combine (cb L) (cmultA L V)))) (cnrm (cb L)).
+
+  (* the restart loop at the end of PBCGSolveMod: PBCGSolve's stopping test uses the recursively
+     updated residual; the true residual of the returned vector is recomputed and the solver is
+     restarted from that vector until the true residual meets Precision ("if(!(trueEr>Precision))
+     break;") or no longer halves ("if((lastEr>=0) && !(trueEr<0.5*lastEr)) break;").
+     rfuel bounds the number of restarts in the model (status 2 = out of fuel). *)
+  Fixpoint restart_loop (rfuel fuel : nat) (L : clin) (V : cvec) (it : nat) (last : option F) : cvec * nat * nat :=
+    match rfuel with
+    | O => (V, it, 2)
+    | S r =>
+        let er := true_er L V in
+        if negb (altb A (cprec L) er) then (V, it, 1)
+        else if (match last with Some l => negb (altb A er (amul A (adec A 5 (-1)) l)) | None => false end) then (V, it, 1)
+        else
+          let '(V', it', st) := pbcg fuel L V in
+          if Nat.eqb st 1 then restart_loop r fuel L V' (it + it') (Some er) else (V', it + it', st)
+    end.
+
+  Definition pbcg_restarted (fuel : nat) (L : clin) (V0 : cvec) : cvec * nat * nat :=
+    let '(V, it, st) := pbcg fuel L V0 in
+    if Nat.eqb st 1 then restart_loop 64 fuel L V it None else (V, it, st).
+
   (* PBCGSolveMod(flag): status 0 singular flag, 1 returned, 2 fuel exhausted *)
   Definition pbcgsolvemod (fuel : nat) (L : clin) (flag : bool) : cvec * nat * nat :=
     (* a zero right-hand side has the zero solution (guard at the top of PBCGSolveMod) *)
     if forallb (fun z => ceqb A z (azero C)) (cb L) then (vzero C (cn L), 0, 1)
-    else if flag then pbcg fuel L (cV L)
+    else if flag then pbcg_restarted fuel L (cV L)
     else match pcgsqstart L with
          | None => (cV L, 0, 0)
-         | Some V0 => pbcg fuel L V0
+         | Some V0 => pbcg_restarted fuel L V0
          end.
 
   Inductive cop :=
